@@ -135,7 +135,10 @@ func checkEnvAlter(c envAlterCase, r *h.Rec) error {
 			}
 		case "saed":
 			who := id(c.Recip)
-			got, err = p7.DecryptAndVerify(who.cert, who.key, func() error { return p7.Verify() })
+			// both entry points (the message has one recipient); they must agree
+			entry := []string{"DecryptAndVerify", "DecryptAndVerifyOnlyOne"}[(c.Pos+c.Xor)%2]
+			r.Label("entry:%s", entry)
+			got, err = openSAED(entry, p7, who.cert, who.key, func() error { return p7.Verify() })
 			if err == nil {
 				// signed: the result must be the signed content under the original signature and key
 				r.Label("outcome:decrypts-and-verifies")
